@@ -664,3 +664,67 @@ Print Assumptions getval_shortcut_breaks_anchoring_law.
 Theorem enclosing_anchors_are_an_anchoring : forall r v, re_search (RCat RBol (RCat r REol)) v = re_whole r v.
 Proof. exact enclosing_anchors. Qed.
 Print Assumptions enclosing_anchors_are_an_anchoring.
+
+(* ======================= round 6: row streams that break off; overlapping requests =======================
+   model/PromReq.v.  (1) database/sql reports a stream that broke off (connection lost, statement context done) through
+   Rows.Err(); CLokiQuerier.Select and labelsGetter.Fetch look at it since the fix of this round.  (2) The router builds
+   ONE CLokiQueriable; SetOidAndDB hands every request a copy that carries the request's own context, so whatever the
+   interleaving of the requests' goroutines, a querier runs its statements under the context of the request it serves.
+   ================================================================================================================ *)
+From Qryn Require Import model.PromReq proofs.PromReqProofs.
+
+(* a Select over row streams either fails or answers select_series over ALL the rows of both statements: never a
+   shorter result; it fails exactly when a stream the reader gets to see broke off *)
+Theorem select_never_answers_a_truncated_stream : forall mr rows fetch,
+  (select_stream mr rows fetch = SelErr <-> failure_met rows fetch = true) /\
+  (forall l, select_stream mr rows fetch = SelOk l ->
+             failure_met rows fetch = false /\ l = select_series mr (st_rows rows) (st_rows fetch)).
+Proof. exact (fun mr rows fetch => conj (select_stream_error_iff mr rows fetch) (select_stream_complete mr rows fetch)). Qed.
+Print Assumptions select_never_answers_a_truncated_stream.
+
+(* the reading before the fix (rows.Err() ignored): a label stream that breaks off after the first row hands a selected
+   series to the engine under the EMPTY label set; a sample stream that breaks off loses samples; both answered as success *)
+Theorem unchecked_row_streams_refuted :
+  (exists l, select_stream_unchecked false w_rows_whole w_labels_cut = SelOk l
+             /\ stream_spec_ok false w_rows_whole w_labels_cut (SelOk l) = false
+             /\ existsb (fun o => match o_labels o with [] => true | _ => false end) l = true) /\
+  (exists l, select_stream_unchecked false w_rows_cut w_fetch_whole = SelOk l
+             /\ stream_spec_ok false w_rows_cut w_fetch_whole (SelOk l) = false
+             /\ List.length (flat_map o_samples l) = 3%nat).
+Proof. exact (conj unchecked_label_stream_refuted unchecked_sample_stream_refuted). Qed.
+Print Assumptions unchecked_row_streams_refuted.
+
+(* EVERY interleaving of any number of requests (each one: set-up, Querier(), its statements, its end): every time a
+   querier uses its context, it is the context of its own request, and nobody has cancelled it *)
+Theorem overlapping_requests_read_under_their_own_context : forall tr,
+  wf tr = true ->
+  forall o, List.In o (PromReq.run false rs_init tr) -> snd (fst o) = Some (fst (fst o)) /\ snd o = false.
+Proof. exact own_context_all_interleavings. Qed.
+Print Assumptions overlapping_requests_read_under_their_own_context.
+
+(* hence, without a driver fault, the Select of request r inside any interleaving is select_series over all of r's rows
+   (to which prom_select_exact_series applies): what the other requests do, and when they end, does not matter *)
+Theorem overlapping_requests_each_get_their_series : forall tr r mr rows fetch k k',
+  wf tr = true ->
+  request_select false tr r mr rows None fetch None k k' = SelOk (select_series mr rows fetch).
+Proof. exact request_select_whole. Qed.
+Print Assumptions overlapping_requests_each_get_their_series.
+
+(* and with faults or under ANY variant of the context handling the answer is all or nothing *)
+Theorem request_answer_is_all_or_nothing : forall shared tr r mr rows fr fetch ff k k',
+  request_select shared tr r mr rows fr fetch ff k k' = SelErr \/
+  request_select shared tr r mr rows fr fetch ff k k' = SelOk (select_series mr rows fetch).
+Proof. exact request_select_full_or_error. Qed.
+Print Assumptions request_answer_is_all_or_nothing.
+
+(* seed C17-f (SetOidAndDB stores the context in the router's object and returns that object): request 1 is set up,
+   request 0 is set up before the engine of request 1 asked for its querier, request 0 ends while request 1 still reads:
+   request 1 reads under the CANCELLED context of request 0 and fails, although nobody cancelled it; the code's variant
+   answers all its series on the same interleaving *)
+Theorem shared_queryable_crosses_requests :
+  wf w_trace = true
+  /\ List.In (1%N, Some 0%N, true) (PromReq.run true rs_init w_trace)
+  /\ request_select true w_trace 1 false w_rows None w_fetch None 3 1 = SelErr
+  /\ request_select false w_trace 1 false w_rows None w_fetch None 3 1 = SelOk (select_series false w_rows w_fetch).
+Proof. exact shared_queryable_refuted. Qed.
+Print Assumptions shared_queryable_crosses_requests.
